@@ -6,7 +6,8 @@ import BtcwVerif.Lemmas.Balance
 Theorems about the lease operations of the `TxStore` model (`LockOutput`, `UnlockOutput`,
 `DeleteExpiredLockedOutputs`, `ListLockedOutputs`, `isLockedOutput`, the lease clearing of `insertMinedTx`, the
 lease tests inside `Balance` and `UnspentOutputs`) on an ARBITRARY store, arbitrary ids, instants and durations.
-Time is in nanoseconds; the stored expiry is in whole seconds exactly as `serializeLockedOutput` writes it.
+Time is in nanoseconds; the stored expiry is in whole seconds exactly as `serializeLockedOutput` writes it; the
+expiry handed to the caller is rounded up to a whole second so that both agree (`C12_expiry_exact`).
 -/
 namespace TxStore.C12
 open TxStore KMap
@@ -65,16 +66,16 @@ theorem C12_other_id_never_ok (s : Store) (now id' : Nat) (op : OutPoint) (d : I
     (∀ r, lockOutput s now id' op d ≠ .ok r) ∧ (∀ r, unlockOutput s now id' op ≠ .ok r) := by
   cases hk : isKnownOutput s op <;> simp [lockOutput, unlockOutput, hk, hl, hne]
 
-/-- **same id extends / free output can be leased** — the call succeeds, hands `now + d` to the caller, stores
-the whole seconds of that instant under the id, and touches nothing else. -/
+/-- **same id extends / free output can be leased** — the call succeeds, hands the granted expiry (`now + d` rounded
+up to a whole second) to the caller, stores exactly that instant (in seconds) under the id, and touches nothing else. -/
 theorem C12_extend (s : Store) (now id : Nat) (op : OutPoint) (d : Int)
     (hk : isKnownOutput s op = true)
     (hfree : ∀ l, isLockedOutput s op now = some l → l.id = id) :
-    ∃ s', lockOutput s now id op d = .ok ((now : Int) + d, s') ∧
-      s'.locked.find? op = some ⟨id, unixSeconds (now + d)⟩ ∧
+    ∃ s', lockOutput s now id op d = .ok (grantedExpiry now d, s') ∧
+      s'.locked.find? op = some ⟨id, unixSeconds (grantedExpiry now d)⟩ ∧
       (∀ op', op' ≠ op → s'.locked.find? op' = s.locked.find? op') ∧
       s' = { s with locked := s'.locked } := by
-  refine ⟨{ s with locked := s.locked.insert op ⟨id, unixSeconds (now + d)⟩ }, ?_, ?_, ?_, rfl⟩
+  refine ⟨{ s with locked := s.locked.insert op ⟨id, unixSeconds (grantedExpiry now d)⟩ }, ?_, ?_, ?_, rfl⟩
   · cases hl : isLockedOutput s op now with
     | none => simp [lockOutput, hk, hl]
     | some l => simp [lockOutput, hk, hl, hfree l hl]
@@ -344,29 +345,66 @@ theorem C12_excluded_balance_partial (s : Store) (hinv : Inv s) (now : Nat) (mat
   · intro c hl; simp [countsMined, hl]
   · intro e hl; simp [countsUnmined, hl]
 
-/-! ### the stored expiry is truncated to seconds (DESIGN §7-F8) -/
+/-! ### the expiry handed to the caller is the expiry that is stored (DESIGN §7-F8, fixed in /repo 4c73b71) -/
 
-/-- the stored expiry (seconds) is at most one second before the instant handed to the caller, never after it -/
+/-- whole seconds of an instant: at most one second below it, never above -/
 theorem C12_expiry_gap (e : Int) : unixSeconds e * 1000000000 ≤ e ∧ e < unixSeconds e * 1000000000 + 1000000000 := by
   unfold unixSeconds
   constructor <;> omega
 
-/-- no gap when the instant handed to the caller is a whole second -/
-theorem C12_expiry_exact_whole_seconds (k : Int) : unixSeconds (k * 1000000000) * 1000000000 = k * 1000000000 := by
-  unfold unixSeconds; omega
+/-- **the granted expiry is exactly what is stored**: no instant exists at which the caller believes the lease is in
+force while the store has released it, or vice versa -/
+theorem C12_expiry_exact (now : Nat) (d : Int) :
+    unixSeconds (grantedExpiry now d) * 1000000000 = grantedExpiry now d := by
+  unfold grantedExpiry unixSeconds
+  simp only
+  split <;> omega
+
+/-- the granted expiry is never before `now + d` and less than one second after it -/
+theorem C12_expiry_bounds (now : Nat) (d : Int) :
+    (now : Int) + d ≤ grantedExpiry now d ∧ grantedExpiry now d < (now : Int) + d + 1000000000 := by
+  unfold grantedExpiry
+  simp only
+  split <;> constructor <;> omega
+
+/-- **leased until the expiry handed to the caller, free from then on**: after a successful `LockOutput` returning
+`e`, the output is leased at every instant before `e` and free at `e` and later (until somebody leases it again). -/
+theorem C12_leased_until_returned_expiry (s s' : Store) (now id : Nat) (op : OutPoint) (d e : Int)
+    (h : lockOutput s now id op d = .ok (e, s')) (t : Nat) :
+    isLocked s' op t = decide ((t : Int) < e) := by
+  have hs : e = grantedExpiry now d ∧ s'.locked.find? op = some ⟨id, unixSeconds (grantedExpiry now d)⟩ := by
+    by_cases hk : isKnownOutput s op = true
+    · cases hl : isLockedOutput s op now with
+      | none =>
+        simp [lockOutput, hk, hl] at h
+        obtain ⟨h1, rfl⟩ := h
+        exact ⟨h1.symm, by simp⟩
+      | some l =>
+        by_cases hid : l.id = id
+        · simp [lockOutput, hk, hl, hid] at h
+          obtain ⟨h1, rfl⟩ := h
+          exact ⟨h1.symm, by simp⟩
+        · simp [lockOutput, hk, hl, hid] at h
+    · simp [lockOutput, hk] at h
+  obtain ⟨he, hf⟩ := hs
+  unfold isLocked
+  rw [isLockedOutput_eq, hf]
+  simp only
+  rw [C12_expiry_exact, he]
+  by_cases hc : (t : Int) < grantedExpiry now d <;> simp [hc]
 
 /-- a concrete store: one unconfirmed credited output `(7,0)` -/
 def exStore : Store := { unmined := [(7, ⟨7, [⟨99, 0⟩], [5000]⟩)], unminedCredits := [(⟨7, 0⟩, ⟨5000, false⟩)] }
 
-/-- **counter-example to "until the expiry handed to the caller"** (finding `lease.expiry-truncated-to-seconds`):
-at 0.5 s the output is leased for 1.2 s; `LockOutput` returns 1.7 s; at 1.0 s — 0.7 s before that — the output is
-already free, and a different id obtains it. -/
-theorem C12_counterexample_truncated_expiry :
-    ∃ s', lockOutput exStore 500000000 1 ⟨7, 0⟩ 1200000000 = .ok (1700000000, s') ∧
-      isLocked s' ⟨7, 0⟩ 999999999 = true ∧
-      isLocked s' ⟨7, 0⟩ 1000000000 = false ∧ (1000000000 : Int) < 1700000000 ∧
-      (∃ s'', lockOutput s' 1000000000 2 ⟨7, 0⟩ 1000000000 = .ok (2000000000, s'')) := by
-  refine ⟨_, rfl, ?_, ?_, ?_, ⟨_, rfl⟩⟩ <;> decide
+/-- the scenario of the former finding `lease.expiry-truncated-to-seconds`: at 0.5 s the output is leased for 1.2 s;
+`LockOutput` now returns 2.0 s (1.7 s rounded up); at 1.999999999 s it is still leased and a different id is refused;
+at 2.0 s it is free. -/
+theorem C12_subsecond_lease_example :
+    ∃ s', lockOutput exStore 500000000 1 ⟨7, 0⟩ 1200000000 = .ok (2000000000, s') ∧
+      isLocked s' ⟨7, 0⟩ 1999999999 = true ∧
+      lockOutput s' 1999999999 2 ⟨7, 0⟩ 1000000000 = .error Err.alreadyLocked ∧
+      isLocked s' ⟨7, 0⟩ 2000000000 = false := by
+  refine ⟨_, rfl, ?_, ?_, ?_⟩ <;> decide
 
 /-! ### non-vacuity: the hypotheses of the theorems above are satisfiable on a concrete store -/
 
